@@ -1132,7 +1132,7 @@ pub fn run(ctx: &Ctx, which: Which) -> (Acc, String, bool) {
         }
     });
     let rule = format!(
-        "corpus: every sequence up to length {} over four focused 10-token alphabets (conditionals, blocks and lists, expressions and apply forms, separators) = {} inputs; every sequence of token classes (33 classes, DESIGN Appendix B) of length 1..{} with gap fillers none/space/annotation up to length {} (space/none beyond){}, half of them re-spelled with alternative spellings = {} inputs; {}{} random token soups (<= {} tokens, bracket-balanced bias) and raw character soups; {} scaling families x sizes {:?}; fixed regression inputs; the repository's own tests/scripts/*.garnish whole and cut at every line break; for C04-C07 additionally every core-language AST of <= 3 nodes and random well-formed programs from the C01 generators, printed with minimal parentheses. distinct_nontrivial counts the enumerated class sequences, boundary programs, families and distinct soups.",
+        "corpus: every sequence up to length {} over five focused alphabets of 10-12 tokens (conditionals, blocks and lists, expressions and apply forms, separators, identifier applications) = {} inputs; every sequence of token classes (33 classes, DESIGN Appendix B) of length 1..{} with gap fillers none/space/annotation up to length {} (space/none beyond){}, half of them re-spelled with alternative spellings = {} inputs; {}{} random token soups (<= {} tokens, bracket-balanced bias) and raw character soups; {} scaling families x sizes {:?}; fixed regression inputs; the repository's own tests/scripts/*.garnish whole and cut at every line break; for C04-C07 additionally every core-language AST of <= 3 nodes and random well-formed programs from the C01 generators, printed with minimal parentheses. distinct_nontrivial counts the enumerated class sequences, boundary programs, families and distinct soups.",
         focus_len,
         focus_total,
         l_full,
